@@ -22,7 +22,7 @@ Qed.
 
 Section Progress.
   Variables (k : nat) (reqs : list reqstep) (w0 : world).
-  Notation cstep := (cstep true k reqs).
+  Notation cstep := (cstep true reqs).
   Notation CI := (CI k reqs w0).
 
   Theorem cmeasure_decreases cs lab cs' :
@@ -30,20 +30,21 @@ Section Progress.
     match lab with CTick _ => cmeasure cs' = cmeasure cs | _ => cmeasure cs' < cmeasure cs end.
   Proof.
     intro Hs. destruct lab as [l|g|g|d]; unfold cmeasure.
-    - destruct (cstep_CL _ _ _ _ _ _ Hs) as (st' & Hl & -> & _). cbn [c_lock c_ph].
+    - destruct (cstep_CL _ _ _ _ _ Hs) as (st' & Hl & -> & _). cbn [c_lock c_ph].
       pose proof (measure_decreases _ _ _ Hl). lia.
-    - destruct (cstep_CLook _ _ _ _ _ _ Hs) as (r & s1 & f & c & b & Hp & _ & _ & _ & ->). cbn [c_lock c_ph].
+    - destruct (cstep_CLook _ k _ _ _ _ Hs) as (r & s1 & f & c & b & Hp & _ & _ & _ & ->). cbn [c_lock c_ph].
       pose proof (psum_upd _ _ _ (PLooked (set_evs (c_st cs) []) (jar_of (c_jars cs) (rq_client r)) f c b) Hp) as E.
       cbn [p_weight] in E. lia.
-    - destruct (cstep_CRest _ _ _ _ _ _ Hs) as (s0 & jar & f & c & b & r & w' & o & Hp & _ & _ & ->). cbn [c_lock c_ph].
+    - destruct (cstep_CRest _ _ _ _ _ Hs) as (s0 & jar & f & c & b & r & w' & o & Hp & _ & _ & ->). cbn [c_lock c_ph].
       pose proof (psum_upd _ _ _ (PDone o) Hp) as E. cbn [p_weight] in E. lia.
-    - destruct (cstep_CTick _ _ _ _ _ _ Hs) as (_ & ->). reflexivity.
+    - destruct (cstep_CTick _ _ _ _ _ Hs) as (_ & ->). reflexivity.
   Qed.
 
   Lemma look_enabled cs g r : nth_error (c_ph cs) g = Some PIdle -> nth_error reqs g = Some r ->
-    holds_key (c_lock cs) g k = true -> exists cs', cstep cs (CLook g) = Some cs'.
+    plain_on k r -> holds_key (c_lock cs) g k = true -> exists cs', cstep cs (CLook g) = Some cs'.
   Proof.
-    intros Hp Hr Hh. cbn [StartConc.cstep]. rewrite Hp, Hr, Hh. cbn [negb orb].
+    intros Hp Hr Hpl Hh. cbn [StartConc.cstep]. rewrite Hp, Hr. cbv zeta.
+    rewrite (plain_lock_key k r _ Hpl), Hh. cbn [negb orb].
     destruct (start_lookup _ _) as [[[s1 f] c] b]. eauto.
   Qed.
 
@@ -60,7 +61,7 @@ Section Progress.
   Theorem c_no_deadlock cs : CI cs -> all_done cs = false ->
     exists lab cs', no_tick lab /\ cstep cs lab = Some cs' /\ cadm cs lab.
   Proof.
-    intros (HI & HP & _) Hnd. pose proof HP as (L1 & L2 & Hgp).
+    intros (HI & HP & _) Hnd. pose proof HP as (L1 & L2 & Hgp & HK).
     unfold all_done in Hnd. destruct (finished (c_lock cs)) eqn:Hf.
     - (* the lock side has finished: then every Start has returned *)
       exfalso. cbn [andb] in Hnd.
@@ -93,7 +94,7 @@ Section Progress.
       assert (Hlt : g < length reqs) by (rewrite L2; apply nth_error_Some; congruence).
       destruct (nth_error reqs g) as [r|] eqn:Er; [|apply nth_error_None in Er; lia].
       destruct p as [|s0 jar f c b|o].
-      + destruct (look_enabled cs g r Hp Er Hh) as [cs' Hc]. exists (CLook g), cs'. repeat split. exact Hc.
+      + destruct (look_enabled cs g r Hp Er (PC_plain _ _ _ _ _ HP Er) Hh) as [cs' Hc]. exists (CLook g), cs'. repeat split. exact Hc.
       + destruct (rest_enabled cs g _ _ _ _ _ r Hp Er) as [cs' Hc]. exists (CRest g), cs'. repeat split. exact Hc.
       + exists (CL (LLeave g)), (mkC st' (c_st cs) (c_jars cs) (c_ph cs) (c_acts cs)).
         split; [exact Logic.I|]. split; [|exact Ha]. cbn [StartConc.cstep]. rewrite Hp, Hl. reflexivity.
@@ -112,14 +113,14 @@ Section Progress.
   Theorem all_done_reported cs : CI cs -> all_done cs = true ->
     forall g, g < length reqs -> exists o, nth_error (c_ph cs) g = Some (PDone o).
   Proof.
-    intros (_ & (L1 & L2 & _) & _) Hd g Hlt. unfold all_done in Hd. apply andb_true_iff in Hd as [_ Hd].
+    intros (_ & (L1 & L2 & _ & _) & _) Hd g Hlt. unfold all_done in Hd. apply andb_true_iff in Hd as [_ Hd].
     destruct (nth_error (c_ph cs) g) as [p|] eqn:E; [|apply nth_error_None in E; lia].
     rewrite forallb_forall in Hd. pose proof (Hd p (nth_error_In _ _ E)) as Hp. destruct p; try discriminate. eauto.
   Qed.
 
   (* from every state of the invariant a run without clock ticks lets everybody finish *)
   Lemma completes_aux : forall m cs, cmeasure cs <= m -> CI cs ->
-    exists ls cs', crun true k reqs cs ls = Some cs' /\ cadm_run true k reqs cs ls /\
+    exists ls cs', crun true reqs cs ls = Some cs' /\ cadm_run true reqs cs ls /\
                    Forall no_tick ls /\ all_done cs' = true.
   Proof.
     induction m as [|m IH]; intros cs Hm HC; (destruct (all_done cs) eqn:E;
@@ -132,12 +133,12 @@ Section Progress.
   Qed.
 
   Theorem c_completes cs : CI cs ->
-    exists ls cs', crun true k reqs cs ls = Some cs' /\ cadm_run true k reqs cs ls /\
+    exists ls cs', crun true reqs cs ls = Some cs' /\ cadm_run true reqs cs ls /\
                    Forall no_tick ls /\ all_done cs' = true.
   Proof. intro HC. exact (completes_aux (cmeasure cs) cs (le_n _) HC). Qed.
 
   (* the steps other than clock ticks of a run are at most cmeasure of its start *)
-  Theorem c_bounded : forall ls cs cs', crun true k reqs cs ls = Some cs' ->
+  Theorem c_bounded : forall ls cs cs', crun true reqs cs ls = Some cs' ->
     length (filter (fun lab => match lab with CTick _ => false | _ => true end) ls) + cmeasure cs' <= cmeasure cs.
   Proof.
     induction ls as [|l ls IH]; intros cs cs' Hr; cbn [crun] in Hr.
